@@ -366,6 +366,10 @@ Error BaseBuilder::section_node_of(Out<SectionNode*> out, uint32_t section_id) {
 }
 
 Error BaseBuilder::section(Section* section) {
+  if (ASMJIT_UNLIKELY(!section)) {
+    return report_error(make_error(Error::kInvalidSection));
+  }
+
   SectionNode* node;
   ASMJIT_PROPAGATE(section_node_of(Out(node), section->section_id()));
   ASMJIT_ASSUME(node != nullptr);
